@@ -111,6 +111,9 @@ class RowDataSheet:
             k_prev = None
             # For each pair of consecutive headers in this row, add an edge.
             for k, _ in row_dict.items():
+                # A row with a single column contributes no edge: its header must
+                # still be part of the sheet.
+                header_graph.add_node(k)
                 if k_prev:
                     header_graph.add_edge(k_prev, k)
                 k_prev = k
